@@ -207,7 +207,7 @@ func runC05(a vh.Args, o *vh.Oracle, r *vh.Result) error {
 	for i := 0; i < 3; i++ {
 		e.routeXattrOrder(a.Seed ^ uint64(0xA77+i))
 	}
-	trees, cliEvery, maxDir := 40, 4, 200
+	trees, cliEvery, maxDir := 30, 4, 200
 	if a.Tier == "thorough" {
 		trees, cliEvery, maxDir = 500, 3, 3000
 	}
@@ -232,7 +232,10 @@ func runC05(a vh.Args, o *vh.Oracle, r *vh.Result) error {
 		tree := g.node("root", 0, true)
 		if i == 0 { // goes through every route: symlinks whose targets are not clean paths
 			zoo := g.linkZoo("zz-unclean-link-targets")
-			tree.Children = append(tree.Children, zoo)
+			tree.Children = append(tree.Children, zoo, g.zeroZoo("zz-zero-blocks"))
+			if e.root {
+				tree.Children = append(tree.Children, g.ownerZoo("zz-owners", uint32(os.Geteuid()), uint32(os.Getegid())))
+			}
 			sort.Slice(tree.Children, func(a, b int) bool { return tree.Children[a].name() < tree.Children[b].name() })
 		}
 		level := 0
